@@ -11,6 +11,7 @@ import (
 	"strings"
 	"time"
 
+	beacon "github.com/oasisprotocol/oasis-core/go/beacon/api"
 	"github.com/oasisprotocol/oasis-core/go/common"
 	"github.com/oasisprotocol/oasis-core/go/common/cbor"
 	"github.com/oasisprotocol/oasis-core/go/common/crypto/signature"
@@ -290,6 +291,28 @@ func (n *cnNet) buildTx(spec *cnTxSpec, rng *rand.Rand) ([]byte, error) {
 			v = governance.VoteAbstain
 		}
 		tx = governance.NewCastVoteTx(spec.Nonce, fee, &governance.ProposalVote{ID: uint64(spec.Amount), Vote: v})
+	case "vrfprove":
+		// spec.Node proves with its registered VRF key over n.vrfAlpha (or over something else for validity "badpi")
+		var idx int
+		fmt.Sscanf(spec.Node, "N%d", &idx)
+		alpha := n.vrfAlpha
+		if spec.Validity == "badpi" {
+			alpha = append([]byte("not the alpha"), alpha...)
+		}
+		// (keys that reached the VRF role through a rotation were generated for another role: same key, VRF-capable copy)
+		vs, err := vrfCapable(n.vals[idx].rot["vrf"])
+		if err != nil {
+			return nil, err
+		}
+		proof, err := signature.Prove(vs, alpha)
+		if err != nil {
+			return nil, err
+		}
+		pi, err := proof.Proof.MarshalBinary()
+		if err != nil {
+			return nil, err
+		}
+		tx = transaction.NewTransaction(spec.Nonce, fee, beacon.MethodVRFProve, &beacon.VRFProve{Epoch: beacon.EpochTime(spec.Amount), Pi: pi})
 	case "deregentity":
 		tx = registry.NewDeregisterEntityTx(spec.Nonce, fee)
 	case "unfreeze":
@@ -359,6 +382,20 @@ func (n *cnNet) forgeFrom(raw []byte, nonce uint64, to string, bitOnly bool, rng
 		st.Blob = cbor.Marshal(tx)
 	}
 	return cbor.Marshal(st), sp, true
+}
+
+// vrfCapable returns a signer with the same key that may produce VRF proofs.
+func vrfCapable(sg signature.Signer) (signature.Signer, error) {
+	ms, ok := sg.(*memorySigner.Signer)
+	if !ok {
+		return nil, fmt.Errorf("not a memory signer")
+	}
+	cp, err := memorySigner.NewFromSeed(ms.UnsafeBytes()[:32])
+	if err != nil {
+		return nil, err
+	}
+	cp.(*memorySigner.Signer).UnsafeSetRole(signature.SignerVRF)
+	return cp, nil
 }
 
 func runtimeID(name string) common.Namespace {
